@@ -329,7 +329,71 @@ def extract_pool(repo, parents):
         reclaim = True
     elif len(chain) != 3:
         raise ExtractError(f"house-keeping loop: {len(chain)} branches")
-    return [f"/-- the surplus-idle test compares `{txt}` with the keep-alive limit -/",
+    # the chain itself, as a decision function: which branch takes a connection, and does that branch close it
+    atoms = {"connection.is_closed()": "closed", "connection.has_expired()": "expired", "connection.is_idle()": "idle",
+             "connection not in reserved": "(!reserved)", "connection in reserved": "reserved",
+             "len([c for c in self._connections if c.is_idle()]) > self._max_keepalive_connections": "decide (idleNow > maxKeepalive)",
+             "len([c.is_idle() for c in self._connections]) > self._max_keepalive_connections": "decide (total > maxKeepalive)"}
+
+    def trc(e):
+        t = ast.unparse(e)
+        if t in atoms:
+            return atoms[t]
+        if isinstance(e, ast.BoolOp):
+            return "(" + (" && " if isinstance(e.op, ast.And) else " || ").join(trc(v) for v in e.values) + ")"
+        if isinstance(e, ast.UnaryOp) and isinstance(e.op, ast.Not):
+            return "(!" + trc(e.operand) + ")"
+        raise ExtractError(f"house-keeping loop: test not recognised: {t}")
+    node, k, dec = loops[0].body[0], 0, ""
+    while True:
+        body = [ast.unparse(b) for b in node.body]
+        if body not in (drop, close):
+            raise ExtractError(f"house-keeping loop: branch body not recognised: {body}")
+        dec += f"if {trc(node.test)} then ({k}, {'true' if body == close else 'false'}) else "
+        k += 1
+        if len(node.orelse) == 1 and isinstance(node.orelse[0], ast.If):
+            node = node.orelse[0]
+        else:
+            break
+    dec += f"({k}, false)"
+    # the assignment loop's chain: reuse / create / evict-and-create / wait
+    aloops = [n for n in fn.body if isinstance(n, ast.For) and ast.unparse(n.iter) == "queued_requests"]
+    if len(aloops) != 1:
+        raise ExtractError("_assign_requests_to_connections: `for pool_request in queued_requests` not found")
+    achain = [n for n in aloops[0].body if isinstance(n, ast.If)]
+    if len(achain) != 1:
+        raise ExtractError("assignment loop: exactly one if / elif chain expected")
+    aatoms = {"available_connections": "availNonEmpty", "idle_connections": "idleNonEmpty",
+              "len(self._connections) < self._max_connections": "decide (len < maxConn)"}
+    node, k, adec = achain[0], 0, ""
+    while True:
+        t = ast.unparse(node.test)
+        if t not in aatoms:
+            raise ExtractError(f"assignment loop: test not recognised: {t}")
+        body = ast.unparse(node.body)
+        creates = "self.create_connection(origin)" in body
+        evicts = "self._connections.remove(connection)" in body and "closing_connections.append(connection)" in body
+        assigns = "pool_request.assign_to_connection(connection)" in body
+        if not assigns:
+            raise ExtractError("assignment loop: a branch does not assign a connection")
+        adec += f"if {aatoms[t]} then ({k}, {'true' if creates else 'false'}, {'true' if evicts else 'false'}) else "
+        k += 1
+        if len(node.orelse) == 1 and isinstance(node.orelse[0], ast.If):
+            node = node.orelse[0]
+        elif not node.orelse:
+            break
+        else:
+            raise ExtractError("assignment loop: unexpected else branch")
+    adec += f"({k}, false, false)"
+    assign_lines = ["/-- the if / elif chain of the assignment loop, translated: (index of the branch - the last index means \"keeps waiting\" -, does it",
+                    "create a connection, does it evict an idle one first) -/",
+                    "def poolAssignDecision (availNonEmpty idleNonEmpty : Bool) (len maxConn : Nat) : Nat × Bool × Bool :=",
+                    "  " + adec]
+    return assign_lines + ["/-- the if / elif chain of the house-keeping loop, translated: (index of the branch that takes the connection - the last index means",
+            "\"kept\" -, does that branch hand it to `_close_connections`) -/",
+            "def poolCleanupDecision (closed expired idle reserved : Bool) (idleNow total maxKeepalive : Nat) : Nat × Bool :=",
+            "  " + dec,
+            f"/-- the surplus-idle test compares `{txt}` with the keep-alive limit -/",
             "def poolCountsIdleOnly : Bool := " + ("true" if idle_only else "false"),
             "/-- the house-keeping loop closes a connection that is neither idle nor held by a request in the queue -/",
             "def poolReclaimsAbandoned : Bool := " + ("true" if reclaim else "false"),
